@@ -55,6 +55,65 @@ def subject_of(body, origins):
     return "|".join(sorted(str(n) for n in names))
 
 
+def const_eval(body, op, depth=0):
+    """Value of an operand when it is a constant expression (literals / named consts folded through
+    Add/Sub/Mul/Shl/Shr/Neg/Not, the checked-arithmetic tuples and integer casts); else None."""
+    if depth > 8:
+        return None
+    if op.get("k") == "const":
+        if "f" in op:
+            return float(op["f"])
+        return const_val(op)
+    pl = op_place(op)
+    if pl is None:
+        return None
+    return _const_place(body, pl, depth)
+
+
+def _const_place(body, pl, depth):
+    ds = body.whole_defs(pl["l"])
+    if len(ds) != 1:
+        return None
+    bi, si = ds[0]
+    if si == "term":
+        return None
+    rv = body.blocks[bi]["stmts"][si]["rv"]
+    proj = pl["p"]
+    k = rv["k"]
+    if k == "use":
+        o = rv["op"]
+        if o.get("k") == "const":
+            return None if proj else const_eval(body, o, depth + 1)
+        return _const_place(body, {"l": o["pl"]["l"], "p": o["pl"]["p"] + proj}, depth + 1)
+    if k == "bin":
+        a = const_eval(body, rv["a"], depth + 1)
+        b = const_eval(body, rv["b"], depth + 1)
+        if a is None or b is None or isinstance(a, float) or isinstance(b, float):
+            return None
+        opn = rv["op"]
+        checked = opn.endswith("WithOverflow")
+        if checked:
+            if proj not in ([".0"],):
+                return None
+            opn = opn[:-len("WithOverflow")]
+        elif proj:
+            return None
+        opn = opn.replace("Unchecked", "")
+        try:
+            return {"Add": a + b, "Sub": a - b, "Mul": a * b, "Shl": a << b if 0 <= b < 128 else None,
+                    "Shr": a >> b if 0 <= b < 128 else None}.get(opn)
+        except (TypeError, ValueError):
+            return None
+    if proj:
+        return None
+    if k == "un" and rv["op"] == "Neg":
+        a = const_eval(body, rv["a"], depth + 1)
+        return None if a is None else -a
+    if k == "cast" and rv["ck"] == "IntToInt":
+        return const_eval(body, rv["op"], depth + 1)
+    return None
+
+
 def decode_cond(body, op):
     """Decode a bool operand into (subject, op, const) if it is `subject CMP const`, `!subject`, or a call."""
     origins = body.origins(op)
@@ -72,20 +131,13 @@ def decode_cond(body, op):
         a, b = rv["a"], rv["b"]
         oa, ob = body.origins(a), body.origins(b)
 
-        def cst(os):
-            if len(os) == 1 and os[0][0] == "const":
-                c = os[0][1]
-                if "f" in c:
-                    return float(c["f"])
-                return const_val(c)
-            return None
-        ca, cb = cst(oa), cst(ob)
+        ca, cb = const_eval(body, a), const_eval(body, b)
         if cb is not None and ca is None:
             return {"kind": "cmp", "subject": subject_of(body, oa), "op": rv["op"], "const": cb,
-                    "subject_origins": oa, "cdef": ob[0][1].get("cdef")}
+                    "subject_origins": oa, "cdef": None}
         if ca is not None and cb is None:
             return {"kind": "cmp", "subject": subject_of(body, ob), "op": FLIP[rv["op"]], "const": ca,
-                    "subject_origins": ob, "cdef": oa[0][1].get("cdef")}
+                    "subject_origins": ob, "cdef": None}
         if ca is None and cb is None:
             return {"kind": "cmp2", "a": subject_of(body, oa), "b": subject_of(body, ob), "op": rv["op"],
                     "a_origins": oa, "b_origins": ob}
